@@ -170,11 +170,11 @@ def compare_msg(s):
     return s[:100]
 
 
-def gen_workload(rng, n_dbs, q_per_db, weights=None, max_depth=3, max_rows=60, exec_fn=None, id_prefix="w", chk=None, steps_fn=None, extra_avoid=None):
+def gen_workload(rng, n_dbs, q_per_db, weights=None, max_depth=3, max_rows=60, exec_fn=None, id_prefix="w", chk=None, steps_fn=None, extra_avoid=None, db_fn=None):
     """-> list of (case, db, [(q, sql, tags)]) ; steps = load + queries."""
     out = []
     for d in range(n_dbs):
-        db = sqlgen.gen_database(rng, max_rows=max_rows)
+        db = db_fn(rng) if db_fn else sqlgen.gen_database(rng, max_rows=max_rows)
         load = sqlgen.load_steps(db)
         ex = exec_fn(rng, d) if exec_fn else {"kind": "det", "policy": "random", "seed": rng.randint(0, 1 << 30), "yield_p": 0.05,
                                               "partitions": rng.choice([1, 2, 3, 4, 8])}
